@@ -49,7 +49,7 @@ def client_api_action(r, p=gv.SMALL):
 
 def server_api_action(r, drv: Driver, retired, p=gv.SMALL):
     mid = g_id(r, drv, retired)
-    code = r.choice([0, 0, 14, 49, 2, 80])
+    code = r.choice([0, 0, 14, 49, 2, 80, 118, 4096, 2**31, 123])
     md, dm = r.choice([None, "", "dc=x"]), r.choice([None, "", "msg"])
     x = r.random()
     if x < 0.25:
